@@ -162,7 +162,7 @@ def run(chk, replay=None):
                 bool(eval_case(c0['cnt'], c0['n'], perturbed, c0['le'], 'int', 'list')))
 
     # binned_ecdf == less_equal at each val
-    for _ in range(50 if quick else 500):
+    for _ in range(50 if quick else 5000):
         n = rng.randint(1, 30)
         x = [rng.randint(0, 8) for _ in range(n)]
         vals = sorted(set(rng.randint(-1, 9) for _ in range(6)))
@@ -198,7 +198,7 @@ def run(chk, replay=None):
 
     # code -> trace: large samples, heavy ties
     traces = []
-    n_tr = 60 if quick else 400
+    n_tr = 60 if quick else 2500
     for t in range(n_tr):
         K = rng.randint(1, 40)
         base = sorted(rng.sample(range(-500, 500), K))
